@@ -53,13 +53,14 @@ impl std::fmt::Display for FeelZone {
       FeelZone::Utc => write!(f, "Z"),
       FeelZone::Local => write!(f, ""),
       FeelZone::Offset(offset) => {
-        let hours = offset / 3_600;
+        let sign = if *offset < 0 { '-' } else { '+' };
+        let hours = offset.abs().div(3_600);
         let minutes = offset.abs().rem(3_600).div(60);
         let seconds = offset.abs().rem(3_600).rem(60);
         if seconds > 0 {
-          write!(f, "{:+03}:{:02}:{:02}", hours, minutes, seconds)
+          write!(f, "{}{:02}:{:02}:{:02}", sign, hours, minutes, seconds)
         } else {
-          write!(f, "{:+03}:{:02}", hours, minutes)
+          write!(f, "{}{:02}:{:02}", sign, hours, minutes)
         }
       }
       FeelZone::Zone(zone) => write!(f, "@{}", zone),
